@@ -264,6 +264,7 @@ def eval_polya(case, ctx):
     allb = [(b, k, ch) for b, k, ch in left] + [(b, None, None) for b in body] + [(b, k, ch) for b, k, ch in right]
     cigar = []
     q = ""
+    block_at = {}
     if case.get("hard_t"):
         cigar.append((sam.H, case["hard_t"]))
     if case["clip_t"] and left:
@@ -274,6 +275,8 @@ def eval_polya(case, ctx):
             cigar.append((sam.N, b[0] - allb[i - 1][0][1] - 1))
         ln = b[1] - b[0] + 1
         cigar.append((sam.M, ln))
+        q0 = len(q)
+        block_at[tuple(b)] = q0
         if k:
             q += seq_for(b, k, ch)
         elif case.get("body_kind") == "head_meets_tail" and case.get("body_seq"):
@@ -363,18 +366,35 @@ def eval_polya(case, ctx):
     if (info.read_start, info.read_end) != (ex[0][0], ex[-1][1]):
         ctx.violation("C16:read-start-end-not-updated", {"exons": ex, "start": info.read_start, "end": info.read_end},
                       case)
+    # bases of the removed exons that are not tail bases (the generator knows the sequence of every tail exon): the
+    # position may lie that many bases beyond the retained exon ("retained end + transcript bases of the removed
+    # exons"), not more - tail bases that happen to be aligned are not part of the transcript
+    def nontail(removed, ch):
+        n = 0
+        for b_ in removed:
+            at_ = block_at[tuple(b_)] + (case["clip_t"] if False else 0)
+            n += sum(1 for x in q[at_:at_ + b_[1] - b_[0] + 1] if x != ch)
+        return n
+    # the internal search looks at the last 4 x 16 aligned bases only: with more aligned tail bases than that the
+    # recorded position lies inside the tail by construction, and only the old bound (all removed bases) applies
     if removed_right:
-        rlen = sum(e - s + 1 for s, e in removed_right)
+        rlen = nontail(set(removed_right), "A")
+        if sum(e - s + 1 for s, e in removed_right) > 56:
+            rlen = sum(e - s + 1 for s, e in removed_right)
         for name, p in (("internal_polya_pos", pi.internal_polya_pos), ("external_polya_pos", pi.external_polya_pos)):
-            if p != -1 and not (ex[-1][0] <= p <= ex[-1][1] + rlen + 1):
+            if p != -1 and not (ex[-1][0] <= p <= ex[-1][1] + rlen + 2):
                 ctx.violation("C16:polya-position-not-on-retained-exon:" + name,
-                              {"pos": p, "retained_last_exon": ex[-1], "removed": removed_right}, case)
+                              {"pos": p, "retained_last_exon": ex[-1], "removed": removed_right,
+                               "transcript_bases_in_removed_exons": rlen}, case)
     if removed_left:
-        llen = sum(e - s + 1 for s, e in removed_left)
+        llen = nontail(set(removed_left), "T")
+        if sum(e - s + 1 for s, e in removed_left) > 56:
+            llen = sum(e - s + 1 for s, e in removed_left)
         for name, p in (("internal_polyt_pos", pi.internal_polyt_pos), ("external_polyt_pos", pi.external_polyt_pos)):
-            if p != -1 and not (ex[0][0] - llen - 1 <= p <= ex[0][1]):
+            if p != -1 and not (ex[0][0] - llen - 3 <= p <= ex[0][1]):
                 ctx.violation("C16:polyt-position-not-on-retained-exon:" + name,
-                              {"pos": p, "retained_first_exon": ex[0], "removed": removed_left}, case)
+                              {"pos": p, "retained_first_exon": ex[0], "removed": removed_left,
+                               "transcript_bases_in_removed_exons": llen}, case)
 
 
 def _shard_cases(**kw):
